@@ -17,7 +17,11 @@ pub struct WordOut {
 
 pub fn shape_tokens(d: &[(String, String, String)]) -> String {
     let mut t = BTreeSet::new();
-    for (_, exp, got) in d {
+    let only_cf = d.iter().all(|(k, _, _)| obs::field_class(k) == "cell.cfstyle");
+    for (k, exp, got) in d {
+        if !only_cf && obs::field_class(k) == "cell.cfstyle" {
+            continue; // secondary field, see `classes`
+        }
         if got.contains("#REF!") && !exp.contains("#REF!") {
             t.insert("gains-#REF!");
         }
@@ -32,7 +36,12 @@ pub fn shape_tokens(d: &[(String, String, String)]) -> String {
 }
 
 pub fn classes(d: &[(String, String, String)]) -> String {
-    let c: BTreeSet<String> = d.iter().map(|(k, _, _)| obs::field_class(k)).collect();
+    let mut c: BTreeSet<String> = d.iter().map(|(k, _, _)| obs::field_class(k)).collect();
+    // the conditional-format overlay of a cell is a secondary field: it follows the cell's value/style and the rules,
+    // so it only names a class of its own when nothing else differs
+    if c.len() > 1 {
+        c.remove("cell.cfstyle");
+    }
     c.into_iter().collect::<Vec<_>>().join(",")
 }
 
@@ -79,6 +88,11 @@ pub fn explain(
         });
         if rest.len() != before {
             tags.push("cf-range");
+        }
+        // the overlay a damaged conditional format paints (or no longer paints) on cells follows from the above
+        let cf_damaged = df.iter().any(|(k, _, _)| obs::field_class(k) == "cf") && !rest.iter().any(|(k, _, _)| obs::field_class(k) == "cf");
+        if cf_damaged {
+            rest.retain(|(k, _, _)| obs::field_class(k) != "cell.cfstyle");
         }
     }
     (tags.join("+"), rest)
@@ -340,7 +354,7 @@ pub fn run(run: &mut Run) {
         }
         bounds.push(json!({"alphabet": name, "alphabet_size": cfg.alphabet.len(), "length": len, "seeds": cfg.seeds,
             "histories_ok": st.words, "histories_cut_at_first_error": st.words_cut}));
-        if run.elapsed() > if thorough { 3000.0 } else { 100.0 } {
+        if run.elapsed() > if thorough { 3000.0 } else { 600.0 } {
             run.cap_hit = Some(format!("wall clock after plan {} len {}", name, len));
             break;
         }
